@@ -15,6 +15,7 @@ N, A, S, AP, T = 0, 1, 2, 3, 4
 REASON = {"telomere_depletion": 0, "error_accumulation": 1, "timeout": 2, "idle_timeout": 3}
 BASE = _dt.datetime(2026, 1, 1)
 US = _dt.timedelta(microseconds=1)
+MIN, HOUR, DAY = 60, 3600, 86400
 SRC = "operon_ai/state/telomere.py"
 
 
@@ -184,14 +185,19 @@ def gen_file_text(kind, graph, problems):
 # ----------------------------------------------------------------------------
 
 class _Clock:
-    t = 0   # seconds since BASE
+    us = 0   # microseconds since BASE
 
 
 class VDatetime(_dt.datetime):
     """Stands in for the `datetime` name inside telomere.py."""
     @classmethod
     def now(cls, tz=None):
-        return BASE + _dt.timedelta(seconds=_Clock.t)
+        return BASE + _dt.timedelta(microseconds=_Clock.us)
+
+
+def adv_us(o):
+    """A clock step ["adv", seconds] or ["adv", seconds, microseconds] in microseconds (exact integers)."""
+    return o[1] * 1000000 + (o[2] if len(o) > 2 else 0)
 
 
 class C09(Check):
@@ -204,12 +210,20 @@ class C09(Check):
     N_QUICK = 1400
     N_THOROUGH = 20000
     RULE = ("configurations max_operations 1..12, error_threshold 1..4, renewal on/off, lifetime limit off/3..30 s, idle limit "
-            "off/2..10 s (integer seconds, read back from the constructed object in microseconds); histories of 1..12 calls "
+            "off/2..10 s - and, for 25% of the configurations (80% of the 'away' histories), limits on every scale the constructor "
+            "takes: 1.5/2.5 s, 45/90 s, 20/30 min, 1..12 h, exactly 1 day, 1 day + 1 s, 25/36 h, 2..30 days (read back from the "
+            "constructed object in microseconds); histories of 1..12 calls "
             "(thorough: up to 40) over start, tick(0..3), record_error, heartbeat, check_timeouts, renew(None/0/1/2/5, reset_errors), "
-            "trigger_apoptosis, terminate, reset, clock advance 0..10 s (limits are hit exactly); ~3% malformed histories (negative "
-            "cost/amount, max_operations 0, threshold 0). Exhaustive over a 10-call alphabet (start, tick(1), record_error, heartbeat, "
+            "trigger_apoptosis, terminate, reset, clock advance: 0..10 s, sub-second amounts (microseconds), minutes, hours, whole "
+            "days (1..4000), days plus a remainder; steps aimed at a configured limit hit it exactly, one second / one microsecond "
+            "short of or past it, a part or a multiple of it, 40% of them with a whole number of days on top (elapsed time >= 1 day "
+            "whose remainder modulo 24 h is below / at / above the limit). 12% are 'away' histories: start, some use, one to three long "
+            "absences aimed at the limits, check_timeouts / tick / renew / start / reset after each. ~3% malformed histories (negative "
+            "cost/amount, max_operations 0, threshold 0, the clock stepped backwards). Exhaustive over a 10-call alphabet (start, tick(1), record_error, heartbeat, "
             "check_timeouts, renew(), trigger_apoptosis, terminate, reset, advance 5 s), every call observed: all histories of depth "
-            "<=3 on 2 small configurations (quick); plus all of depth 5 (alphabet without heartbeat) on one and of depth 4 on two more configurations (thorough). "
+            "<=3 on 2 small configurations, and all of depth <=3 over a 9-call alphabet with clock steps of 25 min, 1 day + 5 min, "
+            "3 days + 1 h on a configuration with lifetime 2 h / idle 45 min (quick); plus all of depth 5 (alphabet without heartbeat) "
+            "on one, of depth 4 on two more configurations and of depth 4 on the days configuration (thorough). "
             "Driving variations (invisible to the model, every observation must stay what the model predicts): 35% of the generated "
             "cases run with silent=False (stdout captured), 15% without on_phase_change (transition stream read from get_events()), "
             "50% with a recording on_senescence callback, 50% use the argument defaults (tick(), renew(), trigger_apoptosis(), silent); "
@@ -225,7 +239,9 @@ class C09(Check):
                   "transitions only (per call, chained from the phase before to the phase after), TERMINATED absorbing (reset "
                   "aside), dead phases never tick, tick True iff ACTIVE afterwards, 0<=length<=max, Hayflick potential "
                   "(#True unit ticks since last renewal + length <= max_operations), renewal refused when disallowed/terminated, "
-                  "error-count/error-rate/lifetime/idle limits force SENESCENT, every call returns (no raise, no hang in the model; "
+                  "error-count/error-rate/lifetime/idle limits force SENESCENT (an exceeded lifetime limit stays exceeded over every "
+                  "reset-free history with a forward clock of any step size, an exceeded idle limit over every history without "
+                  "tick/heartbeat/reset), every call returns (no raise, no hang in the model; "
                   "lock discipline checked on the call graph regenerated from the source on every run). The model is tied to the "
                   "code by evaluating it in Coq (vm_compute, PrimFloat classifiers) on every generated history the implementation ran.")
     LEVEL_NOTE = ("Trusts: Coq kernel+VM; the correspondence harness; the ast translator of the lock structure; `with lock` "
@@ -248,7 +264,8 @@ class C09(Check):
     ASSUMPTIONS = ["tick costs and renewal amounts are non-negative integers; max_operations >= 0 (theorems about ranges, "
                    "Hayflick and every-call-returns); the remaining theorems hold for all integers",
                    "reset starts a new lifecycle (documented 'for testing'): absorption of TERMINATED is demanded for every other call",
-                   "the clock only moves between calls (virtual clock rebinding telomere.datetime)"]
+                   "the clock only moves between calls (virtual clock rebinding telomere.datetime), by any amount; the two "
+                   "expiry-persistence theorems assume it does not move backwards"]
 
     def __init__(self, tier, seed):
         super().__init__(tier, seed)
@@ -293,18 +310,104 @@ class C09(Check):
     ALPHABET = [["start"], ["tick", 1], ["err"], ["hb"], ["check"], ["renew", None, True],
                 ["apop"], ["term"], ["reset"], ["adv", 5]]
 
-    def _rand_cfg(self, rng):
+    # time limits on every scale the constructor accepts (hours / minutes as floats): seconds (the original grid),
+    # fractions of a second, minutes, hours, exactly one day, more than a day, weeks
+    LIFE_SMALL = [3, 5, 10, 30]
+    IDLE_SMALL = [2, 5, 10]
+    LIFE_WIDE = [2.5, 90, 20 * MIN, HOUR, 2 * HOUR, 12 * HOUR, DAY, DAY + 1, 36 * HOUR, 2 * DAY, 7 * DAY, 30 * DAY]
+    IDLE_WIDE = [1.5, 45, 20 * MIN, 30 * MIN, HOUR, 6 * HOUR, DAY, 25 * HOUR, 3 * DAY]
+    WHOLE_DAYS = [1, 1, 1, 2, 2, 3, 7, 30, 365, 4000]
+
+    def _rand_cfg(self, rng, wide=None):
+        """`wide`: the time limits come from the whole range of scales (None: 25% of the configurations)."""
+        if wide is None:
+            wide = rng.random() < 0.25
+        if wide:
+            life = rng.choice([None] + self.LIFE_WIDE + self.LIFE_SMALL[:2])
+            idle = rng.choice([None] + self.IDLE_WIDE + self.IDLE_SMALL[:2])
+            if life is None and idle is None:
+                if rng.random() < 0.5:
+                    life = rng.choice(self.LIFE_WIDE)
+                else:
+                    idle = rng.choice(self.IDLE_WIDE)
+        else:
+            life = rng.choice([None, None] + self.LIFE_SMALL)
+            idle = rng.choice([None, None] + self.IDLE_SMALL)
         return {"max_ops": rng.choice([1, 2, 2, 3, 3, 4, 5, 6, 7, 8, 9, 10, 10, 11, 12, 12]),
                 "thr": rng.choice([1, 2, 2, 3, 3, 4]),
                 "renew": rng.random() < 0.7,
-                "life_s": rng.choice([None, None, 3, 5, 10, 30]),
-                "idle_s": rng.choice([None, None, 2, 5, 10])}
+                "life_s": life,
+                "idle_s": idle}
+
+    @staticmethod
+    def _adv(us):
+        """the clock-step operation for a number of microseconds"""
+        s, r = divmod(us, 1000000)
+        return ["adv", s, r] if r else ["adv", s]
+
+    def _limit_walk(self, rng, limits):
+        """A clock step aimed at a configured limit: exactly the limit, one second / one microsecond short of it or
+        past it, a part of it - and, 40% of the time, a whole number of days on top (being away for days and a
+        remainder that is below / at / above the limit)."""
+        lim = int(round(rng.choice(limits) * 1000000))
+        k = rng.random()
+        if k < 0.45:
+            us = lim + rng.choice([0, 0, -1000000, 1000000])
+        elif k < 0.60:
+            us = lim + rng.choice([-1, 1, -500000, 1])
+        elif k < 0.85:
+            us = rng.randrange(0, lim) if rng.random() < 0.5 else (rng.randrange(0, max(1, lim // 1000000)) * 1000000)
+        else:
+            us = lim + rng.randrange(0, lim + 1)
+        if rng.random() < 0.40:
+            us += rng.choice(self.WHOLE_DAYS) * DAY * 1000000
+        return self._adv(max(0, us))
+
+    def _rand_adv(self, rng, cfg=None):
+        """An undirected clock step: seconds on the original grid, or - the larger the configured limits, the more
+        often - minutes, hours, whole days, days and a remainder, sub-second amounts."""
+        limits = [x for x in ((cfg or {}).get("life_s"), (cfg or {}).get("idle_s")) if x]
+        big = max(limits) if limits else 0
+        k = rng.random()
+        if k < (0.75 if big <= 30 else 0.30):
+            return ["adv", rng.choice([0, 1, 2, 2, 3, 5, 5, 10])]
+        k = rng.random()
+        if k < 0.15:
+            return ["adv", rng.choice([0, 0, 1, 2, 5]), rng.choice([1, 250000, 500000, 999999])]
+        if k < 0.35:
+            return ["adv", rng.choice([1, 2, 5, 10, 20, 30, 45, 59, 60, 90]) * MIN]
+        if k < 0.55:
+            return ["adv", rng.choice([1, 2, 3, 6, 12, 23, 24, 25, 36, 48]) * HOUR]
+        if k < 0.75:
+            return ["adv", rng.choice(self.WHOLE_DAYS) * DAY]
+        return ["adv", rng.choice(self.WHOLE_DAYS) * DAY + rng.choice([1, 2, 5, 10, 5 * MIN, 10 * MIN, 30 * MIN, HOUR, 16 * HOUR])]
+
+    def _away_case(self, rng):
+        """The lifecycle is started, used for a while, then left alone for a long time (whole days and a remainder that
+        is below / at / above a configured limit, or a multiple of the limit), then checked and used again."""
+        cfg = self._rand_cfg(rng, wide=rng.random() < 0.8)
+        if not (cfg["life_s"] or cfg["idle_s"]):
+            cfg[rng.choice(["life_s", "idle_s"])] = rng.choice(self.LIFE_WIDE)
+        limits = [x for x in (cfg["life_s"], cfg["idle_s"]) if x]
+        ops = [["start"]] if rng.random() < 0.6 else [["tick", 1]] if rng.random() < 0.8 else []
+        for _ in range(rng.randint(0, 3)):
+            ops.append(rng.choice([["tick", 1], ["tick", 1], ["hb"], ["check"], ["err"], self._rand_adv(rng, cfg)]))
+        for _ in range(rng.randint(1, 3)):
+            ops.append(self._limit_walk(rng, limits) if rng.random() < 0.8 else self._rand_adv(rng, cfg))
+            for _ in range(rng.randint(0, 2)):
+                ops.append(rng.choice([["check"], ["check"], ["check"], ["tick", 1], ["hb"], ["renew", None, True],
+                                       ["start"], ["reset"]]))
+            if rng.random() < 0.7:
+                ops.append(["check"])
+            if rng.random() < 0.5:
+                ops.append(rng.choice([["tick", 1], ["renew", None, True], ["check"]]))
+        return {"cfg": cfg, "ops": ops}
 
     def _rand_op(self, rng, malformed, cfg=None):
         limits = [x for x in ((cfg or {}).get("life_s"), (cfg or {}).get("idle_s")) if x]
         if limits and rng.random() < 0.12:
             # walk the clock up to / just short of / past a configured limit
-            return ["adv", max(0, rng.choice(limits) + rng.choice([0, 0, -1, 1]))] if rng.random() < 0.6 else ["check"]
+            return self._limit_walk(rng, limits) if rng.random() < 0.6 else ["check"]
         k = rng.random()
         if k < 0.30:
             c = rng.choice([1, 1, 1, 1, 1, 0, 2, 3])
@@ -330,7 +433,10 @@ class C09(Check):
             return ["term"]
         if k < 0.90:
             return ["reset"]
-        return ["adv", rng.choice([0, 1, 2, 2, 3, 5, 5, 10])]
+        if malformed and rng.random() < 0.3:
+            # the clock stepped backwards (outside the property's "clock advance"; both sides must still agree)
+            return rng.choice([["adv", -1], ["adv", -3], ["adv", -DAY], ["adv", -1, 999999], ["adv", -2 * DAY - 5]])
+        return self._rand_adv(rng, cfg)
 
     # read-only accessors of Telomere; they are transparent: stripped from the model's input (coq_case), no
     # observation row of their own, and every later observation must be what the model predicts without them
@@ -425,8 +531,9 @@ class C09(Check):
             if j >= n - n_long:
                 out.append(self._long_case(rng))     # (last: a first disagreement is then reported on a short case)
                 continue
-            if rng.random() < 0.12:
-                case = self._deplete_case(rng)
+            k = rng.random()
+            if k < 0.24:
+                case = self._deplete_case(rng) if k < 0.12 else self._away_case(rng)
                 if rng.random() < 0.4:
                     case["ops"] = self._with_accessors(rng, case["ops"], 0.1)
                 case["drive"] = self._rand_drive(rng, len(case["ops"]))
@@ -451,6 +558,14 @@ class C09(Check):
             case = {"cfg": cfg, "ops": ops, "drive": self._rand_drive(rng, len(ops))}
             if malformed:
                 case["malformed"] = True
+                # a backwards step never takes the clock before the base instant (time stamps are observed as
+                # microseconds since then, -1 standing for None)
+                t = 0
+                for o in ops:
+                    if o[0] == "adv":
+                        if t + adv_us(o) < 0:
+                            o[1:] = self._adv(-adv_us(o))[1:]
+                        t += adv_us(o)
             out.append(case)
         return out
 
@@ -458,12 +573,16 @@ class C09(Check):
         A = {"max_ops": 2, "thr": 2, "renew": True, "life_s": 10, "idle_s": 5}
         B = {"max_ops": 3, "thr": 1, "renew": False, "life_s": None, "idle_s": None}
         C = {"max_ops": 11, "thr": 3, "renew": True, "life_s": None, "idle_s": 5}
+        # limits of an hour / half an hour and clock steps of days: away for a day and less than / more than a limit
+        D = {"max_ops": 4, "thr": 2, "renew": True, "life_s": 2 * HOUR, "idle_s": 45 * MIN}
+        away = [["start"], ["tick", 1], ["hb"], ["check"], ["renew", None, True], ["reset"],
+                ["adv", 25 * MIN], ["adv", DAY + 5 * MIN], ["adv", 3 * DAY + HOUR]]
         # every call is observed, so a history of depth d also checks all its prefixes
         full = self.ALPHABET
         no_hb = [o for o in full if o[0] != "hb"]
-        plan = [(A, [1, 2, 3], full), (B, [1, 2, 3], full)]
+        plan = [(A, [1, 2, 3], full), (B, [1, 2, 3], full), (D, [1, 2, 3], away)]
         if self.tier != "quick":
-            plan += [(A, [5], no_hb), (B, [4], full), (C, [4], full)]
+            plan += [(A, [5], no_hb), (B, [4], full), (C, [4], full), (D, [4], away)]
         out = []
         for cfg, depths, alphabet in plan:
             for d in depths:
@@ -484,7 +603,7 @@ class C09(Check):
         use_defaults = bool(drive.get("defaults"))
         saved = TM.datetime
         TM.datetime = VDatetime
-        _Clock.t = 0
+        _Clock.us = 0
         stream = []
         sen_calls = []
         console = io.StringIO()
@@ -537,7 +656,7 @@ class C09(Check):
                 for o in case["ops"]:
                     kind = o[0]
                     before = snap()
-                    t_before = _Clock.t
+                    t_before = _Clock.us
                     n0 = len(stream)
                     s0 = len(sen_calls)
                     c0 = console.tell()
@@ -546,7 +665,7 @@ class C09(Check):
                         evs0 = tel.get_events(1)
                         last_event = evs0[-1] if evs0 else None
                     if kind == "adv":
-                        _Clock.t += o[1]
+                        _Clock.us += adv_us(o)
                         fn = None
                     elif kind == "q":
                         fn = accessors[o[1]]
@@ -589,7 +708,7 @@ class C09(Check):
                         except common.Hang:
                             self.hangs_seen += 1
                             obs.append([-999])
-                            steps.append({"op": o, "hang": True, "before": before, "t": t_before})
+                            steps.append({"op": o, "hang": True, "before": before, "t_us": t_before})
                             break
                         except ZeroDivisionError:
                             rc, raised = -2, "ZeroDivisionError"
@@ -605,7 +724,7 @@ class C09(Check):
                         obs.append([-777] + row)
                     max_events = max(max_events, tel.get_statistics()["events_count"])
                     steps.append({"op": o, "ret": rc, "raised": raised, "before": before, "after": after,
-                                  "tr": list(tr), "t": _Clock.t, "sen": sen_calls[s0:],
+                                  "tr": list(tr), "t_us": _Clock.us, "sen": sen_calls[s0:],
                                   "printed": console.getvalue()[c0:] if not silent else ""})
                 return obs, {"steps": steps, "life_us": life_us, "idle_us": idle_us, "max_events": max_events}
         finally:
@@ -622,7 +741,7 @@ class C09(Check):
             if k == "q":
                 continue        # read-only accessor: not an operation of the model (it must be transparent)
             if k == "adv":
-                ops.append(f"Advance {cz(o[1] * 1000000)}")
+                ops.append(f"Advance {cz(adv_us(o))}")
             elif k == "tick":
                 ops.append(f"Tick {cz(o[1])}")
             elif k == "renew":
@@ -718,13 +837,18 @@ class C09(Check):
                     return Violation("C09/error-limit-not-enforced", f"{where}: errors {a[2]} (threshold {cfg['thr']}, operations {a[3]}) but phase {PHN[pa]}, returned {rc}")
             # time limits force senescence
             if kind == "check" and pb == A:
-                nowus = st["t"] * 1000000
+                nowus = st["t_us"]
                 life, idle = trace["life_us"], trace["idle_us"]
                 hit = (life and b[6] >= 0 and nowus - b[6] >= life) or (idle and b[7] >= 0 and nowus - b[7] >= idle)
                 if (life or idle) and (b[6] < 0 or b[7] < 0):
                     return Violation("C09/active-without-start-time", f"{where}: ACTIVE with no start/activity time")
                 if hit and (pa != S or rc != 0):
-                    return Violation("C09/time-limit-not-enforced", f"{where}: past a configured time limit but phase {PHN[pa]}, returned {rc}")
+                    def td(us):
+                        return str(_dt.timedelta(microseconds=us))
+                    how = "; ".join(f"{nm} for {td(nowus - since)}, {nm2} limit {td(lim)}"
+                                    for nm, nm2, lim, since in (("alive", "lifetime", life, b[6]), ("idle", "idle", idle, b[7]))
+                                    if lim and nowus - since >= lim)
+                    return Violation("C09/time-limit-not-enforced", f"{where}: past a configured time limit ({how}) but phase {PHN[pa]}, returned {rc}")
         return None
 
     def nontrivial(self, case, obs, trace):
@@ -747,10 +871,31 @@ class C09(Check):
         if trace.get("max_events", 0) >= 1000:
             ks.add("event-log-at-cap")
         ks.add("max_ops" + ("<10" if case["cfg"]["max_ops"] < 10 else "=10..12" if case["cfg"]["max_ops"] <= 12 else ">12"))
+        for nm, lim in (("lifetime", trace.get("life_us")), ("idle", trace.get("idle_us"))):
+            if lim:
+                ks.add(f"{nm}-limit=" + ("<1min" if lim < MIN * 1000000 else "<1h" if lim < HOUR * 1000000 else
+                                        "<1day" if lim < DAY * 1000000 else ">=1day")
+                       + ("" if lim % 1000000 == 0 else "/fractional"))
+        day_us = DAY * 1000000
         for s in trace["steps"]:
             if s.get("hang"):
                 ks.add("hang")
                 continue
+            if s["op"][0] == "adv":
+                d = adv_us(s["op"])
+                ks.add("clock-step=" + ("backwards" if d < 0 else "0" if d == 0 else "<1min" if d < MIN * 1000000 else
+                                        "<1h" if d < HOUR * 1000000 else "<1day" if d < day_us else
+                                        "whole-days" if d % day_us == 0 else "days+remainder"))
+                if d % 1000000:
+                    ks.add("clock-step=sub-second")
+            if s["op"][0] == "check" and s["before"][0] == A:
+                # how long the lifecycle has been alive / idle when an ACTIVE lifecycle is checked, against its limits
+                for nm, lim, since in (("lifetime", trace.get("life_us"), s["before"][6]), ("idle", trace.get("idle_us"), s["before"][7])):
+                    if lim and since >= 0:
+                        el = s["t_us"] - since
+                        ks.add(f"check/{nm}=" + ("negative" if el < 0 else "below" if el < lim else "exactly" if el == lim else
+                                                 "past" if el < day_us else
+                                                 "past>=1day,remainder-below-limit" if el % day_us < lim else "past>=1day"))
             if s["op"][0] == "q":
                 ks.add("accessor=" + s["op"][1])
                 continue
